@@ -33,6 +33,11 @@ TECHNIQUE = "static analysis: call-graph reachability of unsafe writes from Solv
 def run(ctx, fb, cfg):
     lib = fb.lib
     R = "C11."
+    # "x denotes the fully walked value": walk* resolves list elements, tails and compound fields
+    # all the way down (traversal table shared with C03/C20)
+    import traversal
+
+    traversal.run_table(ctx, lib, R + "K5.walk-star-is-deep", only=["walk_star"])
     edges, bodies = panics.call_graph(lib)
     bd = mutaudit.backdoors(lib)
     unsafe_fns = set(bd)
